@@ -1,5 +1,9 @@
 import TpmProofs.Shift
 import TpmModel.Generated.Cmd
+import TpmProofs.StreamSilent
+import TpmProofs.PosInp
+import TpmProofs.Props.C14S
+import TpmProofs.MsgPump
 /-!
 # C09 — a stream of ARBITRARY messages decodes as its messages decoded one by one (either mode)
 
@@ -62,5 +66,155 @@ exchange that `c09_stream` does not cover — chain -/
 example : (runMsgs false Generated.msgTables rootPath
     [([0x80, 0x01, 0, 0, 0, 0x0c, 0, 0, 0x01, 0x44, 0, 0x42], [0x80, 0x01, 0, 0, 0, 0x0a, 0, 0, 0, 0])] 0 []).isSome = true := by
   decide +kernel
+
+end C09
+
+/-! ### what the consumer of `Binary.marshal` sees: the chain, then a clean end -/
+
+namespace C09
+
+theorem decodeCommand_head (abort : Bool) (tb : MsgTables) (path : Path) (s0 : St) :
+    Grow (emitM ⟨path, .named "Command" false, none, "", 0⟩ { s0 with scs := [⟨s0.pos, [], 0, none⟩] }) (decodeCommand abort tb path s0) := by
+  unfold decodeCommand
+  simp only []
+  repeat' grow_step
+
+theorem decodeResponse_head (abort : Bool) (tb : MsgTables) (cc : Option Int) (enc : Bool) (path : Path) (s0 : St) :
+    Grow (emitM ⟨path, .named "Response" false, none, "", 0⟩ { s0 with scs := [⟨s0.pos, [], 0, none⟩] }) (decodeResponse abort tb cc enc path s0) := by
+  unfold decodeResponse
+  simp only []
+  repeat' grow_step
+
+/-- in the trace of one message decoded on its own, the only root event is the first one, stamped 0 -/
+theorem roots0 {r : R Val} {x : List Byte} {ev : MEvent} {scs : List SC}
+    (hgm : Tr (GM1 C14.ClassOk rootPath) (initSt x) r) (hhead : Grow (emitM ev { initSt x with scs := scs }) r) :
+    RootsAt 0 (stOf r).out := by
+  obtain ⟨new, o1, _, m0, E', hE, _, hrest⟩ := hgm
+  obtain ⟨more, o2⟩ := hhead
+  simp only [initSt, List.nil_append] at o1
+  simp only [emitM, emit, initSt, List.nil_append] at o2
+  rw [o1] at o2 ⊢
+  intro ke hke hroot
+  rw [o2] at hke
+  rcases List.mem_cons.mp hke with rfl | hke
+  · rfl
+  · exfalso
+    obtain ⟨k, e⟩ := ke
+    cases e with
+    | warning w => simp [isRootEllipsis] at hroot
+    | marshal m =>
+      have hmem : Event.marshal m ∈ E' := by
+        have : new.map (·.2) = Event.marshal ev :: more.map (·.2) := by rw [o2]; rfl
+        rw [this] at hE
+        simp only [List.cons.injEq] at hE
+        rw [← hE.2]
+        exact List.mem_map_of_mem (f := (·.2)) hke
+      simp only [isRootEllipsis, Bool.and_eq_true, beq_iff_eq] at hroot
+      exact hrest m hmem hroot.1
+
+theorem shOut_roots {p : Nat} {o : List (Nat × Event)} (h : RootsAt 0 o) : RootsAt p (shOut p o) := by
+  intro ke hke hroot
+  simp only [shOut, List.mem_map] at hke
+  obtain ⟨ke0, hk0, rfl⟩ := hke
+  have : isRootEllipsis ke0.2 = true := by
+    cases he : ke0.2 with
+    | warning w => simp [he, shEv, isRootEllipsis] at hroot
+    | marshal m => simpa [he, shEv] using hroot
+  simp [h ke0 hk0 this]
+
+/-- the chain ends at the end of the input, and no root event inside it is stamped with the end of the input -/
+theorem chain_inv (abort : Bool) : ∀ (msgs : List (List Byte × List Byte)) (pos : Nat) (out : List (Nat × Event)) (pos' : Nat)
+    (out' : List (Nat × Event)), runMsgs abort Generated.msgTables rootPath msgs pos out = some (pos', out') →
+    pos' = pos + (flat msgs).length ∧ (NoRootAt (pos + (flat msgs).length) out → NoRootAt pos' out') := by
+  intro msgs
+  induction msgs with
+  | nil =>
+    intro pos out pos' out' h
+    simp only [runMsgs, Option.some.injEq, Prod.mk.injEq] at h
+    obtain ⟨rfl, rfl⟩ := h
+    exact ⟨by simp [flat], fun hn => by simpa [flat] using hn⟩
+  | cons cr rest ih =>
+    intro pos out pos' out' h
+    obtain ⟨c, r⟩ := cr
+    simp only [runMsgs] at h
+    split at h
+    · cases h
+    · rename_i hne
+      simp only [Bool.or_eq_true, not_or, Bool.not_eq_true] at hne
+      split at h
+      · rename_i cv tc hcmd
+        split at h
+        · cases h
+        · rename_i htc
+          split at h
+          · cases h
+          · rename_i enc henc
+            split at h
+            · rename_i rv tr hrsp
+              split at h
+              · cases h
+              · rename_i htr
+                have htc' : tc.inp = [] := by simpa using htc
+                have htr' : tr.inp = [] := by simpa using htr
+                have hcpos : tc.pos = c.length := by
+                  have := decodeCommand_pi abort Generated.msgTables rootPath (initSt c)
+                  rw [hcmd] at this
+                  simp only [PI, stOf, initSt, htc'] at this
+                  simpa using this
+                have hrpos : tr.pos = r.length := by
+                  have := decodeResponse_pi abort Generated.msgTables ((objField cv "commandCode").bind vInt) enc rootPath (initSt r)
+                  rw [hrsp] at this
+                  simp only [PI, stOf, initSt, htr'] at this
+                  simpa using this
+                have hc0 : 0 < c.length := by cases c with | nil => simp at hne | cons a t => simp
+                have hr0 : 0 < r.length := by cases r with | nil => simp at hne | cons a t => simp
+                have hflat : (flat ((c, r) :: rest)).length = c.length + r.length + (flat rest).length := by
+                  simp [flat, Nat.add_assoc]
+                obtain ⟨hp, hn⟩ := ih _ _ _ _ h
+                refine ⟨by rw [hp, hcpos, hrpos, hflat]; omega, fun hno => ?_⟩
+                have hL : pos + tc.pos + tr.pos + (flat rest).length = pos + (flat ((c, r) :: rest)).length := by
+                  rw [hcpos, hrpos, hflat]; omega
+                have hcr : RootsAt 0 tc.out := by
+                  have h1 := decodeCommand_gd abort (C14.class_link abort) Generated.msgTables C04.c04_tables.1 rootPath (initSt c)
+                  have h2 := decodeCommand_head abort Generated.msgTables rootPath (initSt c)
+                  rw [hcmd] at h1 h2
+                  exact roots0 h1 h2
+                have hrr : RootsAt 0 tr.out := by
+                  have h1 := decodeResponse_gd abort (C14.class_link abort) Generated.msgTables C04.c04_tables.1
+                    ((objField cv "commandCode").bind vInt) enc rootPath (initSt r)
+                  have h2 := decodeResponse_head abort Generated.msgTables ((objField cv "commandCode").bind vInt) enc rootPath (initSt r)
+                  rw [hrsp] at h1 h2
+                  exact roots0 h1 h2
+                apply hn
+                rw [hL]
+                exact (hno.append (NoRootAt.of_roots (shOut_roots hcr) (by omega))).append
+                  (NoRootAt.of_roots (shOut_roots hrr) (by rw [hcpos]; omega))
+            · cases h
+      · cases h
+
+/-- **what `Binary.marshal` shows for a stream of arbitrary messages, either mode**: exactly the chain of the messages' own events
+(with the pump's pull counts), then a clean end -/
+theorem c09_stream_run (abort : Bool) (msgs : List (List Byte × List Byte)) (pos' : Nat) (out' : List (Nat × Event))
+    (h : runMsgs abort Generated.msgTables rootPath msgs 0 [] = some (pos', out')) :
+    (marshalRun abort Generated.msgTables .stream (flat msgs)).events = shown (flat msgs).length out' ∧
+    (marshalRun abort Generated.msgTables .stream (flat msgs)).outcome = .silent := by
+  obtain ⟨scs', hw⟩ := c09_stream_of_arbitrary_messages abort msgs pos' out' h
+  obtain ⟨hp, hn⟩ := chain_inv abort msgs 0 [] pos' out' h
+  simp only [Nat.zero_add] at hp hn
+  have hno : NoRootAt pos' out' := hn (by intro ke hke; cases hke)
+  have hstop := pumpEvents_stop (flat msgs).length out' (.marshal ⟨rootPath, .named "Command" false, none, "", 0⟩) [] none
+    (by
+      intro ke hke
+      by_cases hr : isRootEllipsis ke.2 = true
+      · have := hno ke hke hr
+        have : (ke.1 == (flat msgs).length) = false := by rw [← hp]; simpa using Nat.ne_of_lt this
+        simp [this]
+      · simp [hr])
+    (by simp [isRootEllipsis, rootPath])
+  unfold marshalRun pump
+  rw [hw]
+  simp only [stOf, Top.isStream, hp] at hstop ⊢
+  rw [hstop]
+  simp
 
 end C09
